@@ -15,6 +15,7 @@ CONSTANTS
   DupWrite = TRUE
   WriterGuard = TRUE
   Defensive = TRUE
+  EnvOn = TRUE
 INIT Init
 NEXT Next
 CHECK_DEADLOCK FALSE
